@@ -195,14 +195,19 @@ class LangServer:
         self.root_path = path_from_uri(
             params.get("rootUri") or params.get("rootPath") or ""
         )
-        self.source_dirs.add(self.root_path)
 
         self._load_config_file()
+        # Without source directories from the command line or the configuration
+        # file the root is searched recursively
+        default_source_dirs = len(self.source_dirs) == 0
+        if default_source_dirs:
+            self.source_dirs.add(self.root_path)
         update_recursion_limit(self.recursion_limit)
         self._resolve_globs_in_paths()
         self._config_logger(request)
         self._load_intrinsics()
-        self._add_source_dirs()
+        if default_source_dirs:
+            self._add_source_dirs()
         if self._update_version_pypi():
             self.post_message(
                 "Please restart the server for the new version to activate",
